@@ -22,9 +22,12 @@ def main(argv=None) -> int:
     ap.add_argument("--jobs", type=int, default=16)
     ap.add_argument("--one", type=int, help="run a single scenario index verbosely")
     a = ap.parse_args(argv)
+    pid = a.pid.upper()
+    if pid == "C14":
+        # must be set before numba is imported: an out-of-bounds write then raises instead of corrupting memory
+        os.environ.setdefault("NUMBA_BOUNDSCHECK", "1")
     from . import engine
 
-    pid = a.pid.upper()
     if a.replay:
         return engine.replay(pid, a.replay)
     if a.digests is not None:
